@@ -108,6 +108,16 @@ func (c *Ctl) Point(v *solver.VerifView) solver.VerifChoice {
 	c.pos++
 	c.Points = append(c.Points, point{nalt: nalt, chosen: ch})
 	res := solver.VerifChoice{Var: -1}
+	if c.opts.NbMax < 0 {
+		// configuration "tight limit": the limit follows the size of the database (never below 1, and
+		// the default while the database is empty so that no reduction runs on an empty database);
+		// the real code then reduces at every opportunity and always sees a full database
+		if v.NbLearned >= 1 {
+			res.SetNbMax = v.NbLearned
+		} else {
+			res.SetNbMax = 2000
+		}
+	}
 	if c.opts.NbMax > 0 && v.CanReduce && v.NbLearned >= c.opts.NbMax {
 		// configuration "small learned-clause limit": reduce as soon as the limit is reached
 		res.Reduce = true
